@@ -45,6 +45,11 @@ def run_f2_witness(ctx):
 def run(ctx):
     run_f2_witness(ctx)
     comp_engine.run(ctx, "C11", **comp_engine.PARAMS.get("C11", {}))
+    # map/parallel: every update the real SDK sends under a schedule is accepted by the contract backend (the monitor)
+    from harness import comp_executor
+    comp_executor.run_prop(ctx, "C11", n_quick=100, n_thorough=2500)
+    for i in range(ctx.scale(100, 2000)):
+        comp_executor.one(ctx, "C11", comp_executor.gen_resubmit_rich(ctx.rng), ctx.rng.randrange(1 << 30), component="executor.resubmit")
 
 
 def search(ctx):
@@ -52,6 +57,10 @@ def search(ctx):
 
 
 def replay(ctx, rec):
+    if "blocks" in (rec["case"].get("scenario") or {}):
+        from harness import comp_executor
+        comp_executor.replay(ctx, rec, "C11")
+        return
     if "program" in rec["case"]:
         run_f2_witness(ctx)
     else:
